@@ -43,7 +43,13 @@ def tick_rules(ctx, fs):
     TICKN = ev(LST + 'tick')
     ERASE = g.events(lambda t: t.get('k') == 'CXXMemberCallExpr' and (t.get('callee_name') or '').endswith('::erase') and canon(t['c'][0]['c'][0], env, subst=False) == EX + 'pulses')
     TIME = g.events(lambda t: t.get('k') in ('CXXOperatorCallExpr', 'CompoundAssignOperator') and t.get('op') in ('+=', '=', '-=') and canon(t['c'][1] if t['k'] == 'CXXOperatorCallExpr' else t['c'][0], env, subst=False) == EX + 'current_time')
+    # restarting the iteration on the same pulse: `goto` to a label in front of the loop, or `continue` of the pulse loop itself
     GOTO = {(bid, None) for bid, b in g.blocks.items() if b.get('termk') == 'GotoStmt'}
+    for bid, b in g.blocks.items():
+        if b.get('termk') == 'ContinueStmt':
+            tn = f.node(b['term']) if b.get('term') is not None else None
+            if tn is not None and next((a for a in f.ancestors(tn) if a.get('k') in ('WhileStmt', 'ForStmt', 'DoStmt', 'CXXForRangeStmt')), None) is loop:
+                GOTO.add((bid, None))
     PROP = ev('smt::sat_core::propagate')
     SOLVE = ev('ratio::solver::solve')
 
@@ -151,14 +157,16 @@ def tick_rules(ctx, fs):
                         expect='collect the delays, test the flag, only then start / end / erase')
     gst = P.states_at(GOTO)
     okg = bool(gst) and all(st.get('prop') is True and st.get('solve') is True and st.get('delay') is True for _, st in gst)
-    chk = False
+    # the failure of either call throws: whatever the test is spelled like (one `||` condition, two ifs), the statements run when it fails contain a throw
+    from ..schema import failure_block
+    chk = bool(PROP | SOLVE)
     for n in PROP | SOLVE:
         t = g.tree(n)
-        for a in f.ancestors(t):
-            if a.get('k') == 'IfStmt' and _within(a['slots']['cond'], t):
-                c = canon(a['slots']['cond'], env, subst=False)
-                if isinstance(c, tuple) and c[0] == '||' and all(isinstance(x, tuple) and x[0] == '!' for x in c[1:]) and any(m.get('k') == 'CXXThrowExpr' for m in walk(a['slots']['then'])):
-                    chk = True
+        if not _within(loop, t):
+            continue
+        fb = failure_block(f, t)
+        if fb is None or not any(m.get('k') == 'CXXThrowExpr' for m in walk(fb[0])):
+            chk = False
     sets_true = [n for n in g.nodes if g.tree(n) is not None and (effect(g.tree(n)) or {}).get('delay') is True]
     ctx.instance(rid, [f.id, 'replan'], {'delay_sites': len(sets_true), 'restart_only_after_propagate_and_solve': okg, 'failure_throws': chk})
     if not okg or not chk or len(sets_true) < 2:
@@ -307,14 +315,33 @@ def r6(ctx, fs, f):
             which = 'dont_start' if 'dont_start' in show(canon(n['slots']['init'], env, subst=False)) else 'dont_end'
             body = n['slots']['then']
             stmts = body.get('c') or []
-            first_if = [s for s in stmts if s.get('k') == 'IfStmt']
-            ok = False
-            if first_if:
-                c = show(canon(first_if[0]['slots']['cond'], env, subst=False))
-                ok = 'vars' in c and 'empty' in c and any(m.get('k') == 'CXXThrowExpr' for m in walk(first_if[0]['slots']['then']))
-                # nothing is modified before it
-                idx = stmts.index(first_if[0])
-                ok = ok and all(s.get('k') == 'DeclStmt' for s in stmts[:idx])
+            # decided on the paths of the block: a path that has seen `vars.empty()` hold throws and has done nothing but compute locals before; a path
+            # that changes anything has seen it fail
+            def local_only(st):
+                if st.get('k') == 'DeclStmt' or st.get('as'):
+                    return True
+                if st.get('k') in ('BinaryOperator', 'CXXOperatorCallExpr') and st.get('op') == '=':
+                    c0 = st['c'][0] if st['k'] == 'BinaryOperator' else (st['c'][1] if len(st.get('c') or ()) > 1 else None)
+                    return isinstance(c0, dict) and c0.get('k') == 'DeclRefExpr' and bool(c0.get('local')) and c0.get('refk') == 'Var' and c0.get('ref') != flag_name
+                return st.get('k') == 'CXXThrowExpr'
+            flag_name = None
+            ok = True
+            thrown = False
+            for p in enum_paths(body):
+                e = None
+                for c in p.conds:
+                    if c[0] == 'if':
+                        t = show(canon(c[1], env, subst=False))
+                        if 'vars' in t and '::empty' in t:
+                            e = c[2]
+                            break
+                if e is True:
+                    thrown = thrown or p.end == 'throw'
+                    if p.end != 'throw' or not all(local_only(st) for st in p.stmts):
+                        ok = False
+                elif e is None and not all(local_only(st) for st in p.stmts):
+                    ok = False
+            ok = ok and thrown
             ctx.instance(rid, [f.id, which], {'loop': which, 'constant_time_point_rejected_first': ok})
             n_ok += 1
             if not ok:
